@@ -73,6 +73,11 @@ static int secp256k1_whitelist_compute_tweaked_privkey(const secp256k1_context* 
             ret = 0;
         }
         secp256k1_scalar_add(skey, skey, &sonline);
+        /* A zero tweaked key means the signer's ring key is the point at infinity,
+         * for which no verifying signature exists. */
+        if (secp256k1_scalar_is_zero(skey)) {
+            ret = 0;
+        }
         secp256k1_scalar_clear(&sonline);
         secp256k1_scalar_clear(&tweak);
     }
